@@ -198,3 +198,38 @@ mut("c07-client-swaps-sides", "C07", [(CL, "                        lhs_called_c
 mut("c07-model-reads-other-key", "C07", [(BS, "            stop_model_call = kwargs.get(\"stop_model_call\", [])", "            stop_model_call = kwargs.get(\"stop_model_calls\", [])")], "C07")
 ben("c07-where-to-mask", ["C07"], [(BS, "            interval_upper = np.where((interval_upper < 0) & stop_model_call, self.lhs_called_threshold, interval_upper)", "            interval_upper = interval_upper.copy()\n            interval_upper[(interval_upper < 0) & stop_model_call] = self.lhs_called_threshold")])
 ben("c07-intersection-method", ["C07"], [(BS, "lhs_rhs_intersection = set(lhs_called_contests) & set(rhs_called_contests)", "lhs_rhs_intersection = set(rhs_called_contests) & set(lhs_called_contests)")])
+
+# ------------------------------------------------------------------------------------------- C09
+CDF = D + "CombinedData.py"
+ESF = D + "Estimandizer.py"
+mut("c09-reporting-gt", "C09", [(CDF, "reporting_units = self.data[self.data.percent_expected_vote >= percent_reporting_threshold]", "reporting_units = self.data[self.data.percent_expected_vote > percent_reporting_threshold]")], "C09.R1")
+mut("c09-nonreporting-le", "C09", [(CDF, "nonreporting_units = self.data[self.data.percent_expected_vote < percent_reporting_threshold]", "nonreporting_units = self.data[self.data.percent_expected_vote <= percent_reporting_threshold]")], "C09.R1")
+mut("c09-tf-lower-strict", "C09", [(CDF, "(reporting_units.turnout_factor <= turnout_factor_lower)", "(reporting_units.turnout_factor < turnout_factor_lower)")], "C09.R1")
+mut("c09-tf-upper-strict", "C09", [(CDF, "| (reporting_units.turnout_factor >= turnout_factor_upper)", "| (reporting_units.turnout_factor > turnout_factor_upper)")], "C09.R1")
+mut("c09-tf-and", "C09", [(CDF, "                (reporting_units.turnout_factor <= turnout_factor_lower)\n                | (reporting_units.turnout_factor >= turnout_factor_upper)", "                (reporting_units.turnout_factor <= turnout_factor_lower)\n                & (reporting_units.turnout_factor >= turnout_factor_upper)")], "C09.R1")
+mut("c09-blocklist-and", "C09", [(CDF, "            (self.data[\"geographic_unit_fips\"].isin(unit_blocklist))\n            | (self.data[\"postal_code\"].isin(postal_code_blocklist))", "            (self.data[\"geographic_unit_fips\"].isin(unit_blocklist))\n            & (self.data[\"postal_code\"].isin(postal_code_blocklist))")], "C09.R1")
+mut("c09-nonmodelled-kept-in-nonreporting", "C09", [(CDF, "        nonreporting_units = nonreporting_units[\n            ~nonreporting_units.geographic_unit_fips.isin(non_modeled_units.geographic_unit_fips)\n        ].reset_index(drop=True)\n", "")], "C09.R1")
+mut("c09-zero-baseline-only-reporting", "C09", [(CDF, "units_with_zero_baseline = self.data[self.data[\"geographic_unit_fips\"].isin(zero_baseline_units)].copy()", "units_with_zero_baseline = reporting_units[reporting_units[\"geographic_unit_fips\"].isin(zero_baseline_units)].copy()")], "C09.R1")
+mut("c09-turnout-model-ignores-switch", "C09", [(CDF, "if fit_turnout_outlier_model and reporting_units.shape[0] > self.n_minimum_for_outlier_detection_model:", "if reporting_units.shape[0] > self.n_minimum_for_outlier_detection_model:")], "C09.R1")
+mut("c09-margin-model-any-estimand", "C09", [(CDF, "        if \"margin\" in self.estimands:\n            if fit_margin_outlier_model and", "        if True:\n            if fit_margin_outlier_model and")], "C09.R1")
+mut("c09-reason-order", "C09", [(CDF, "non_modeled_units_list = [units_blocklisted, units_with_zero_baseline, units_with_strange_turnout_factor]", "non_modeled_units_list = [units_with_zero_baseline, units_blocklisted, units_with_strange_turnout_factor]")], "C09.R2")
+mut("c09-dedupe-keep-last", "C09", [(CDF, "pd.concat(non_modeled_units_list).reset_index(drop=True).drop_duplicates(subset=\"geographic_unit_fips\")", "pd.concat(non_modeled_units_list).reset_index(drop=True).drop_duplicates(subset=\"geographic_unit_fips\", keep=\"last\")")], "C09.R2")
+mut("c09-nonreporting-flag", "C09", [(CDF, "        nonreporting_units[\"reporting\"] = int(0)", "        nonreporting_units[\"reporting\"] = int(1)")], "C09.R2")
+mut("c09-category-name", "C09", [(CDF, "units_with_zero_baseline[\"unit_category\"] = \"non-modeled: zero baseline\"", "units_with_zero_baseline[\"unit_category\"] = \"zero baseline\"")], "C09.R2")
+mut("c09-margin-plus", "C09", [(ESF, "data_df[generated_margin_column_name] = data_df[f\"{col_prefix}dem\"] - data_df[f\"{col_prefix}gop\"]", "data_df[generated_margin_column_name] = data_df[f\"{col_prefix}gop\"] - data_df[f\"{col_prefix}dem\"]")], "C09.R4")
+mut("c09-weights-turnout", "C09", [(ESF, "data_df[generated_weights_column_name] = data_df[f\"{col_prefix}dem\"] + data_df[f\"{col_prefix}gop\"]", "data_df[generated_weights_column_name] = data_df[f\"{col_prefix}turnout\"]")], "C09.R4")
+mut("c09-normalized-unguarded", "C09", [(ESF, "        data_df[f\"{col_prefix}margin\"] / data_df[f\"{col_prefix}weights\"], nan=0, posinf=0, neginf=0\n", "        data_df[f\"{col_prefix}margin\"] / data_df[f\"{col_prefix}weights\"], nan=0\n")], "C09.R3")
+mut("c09-tf-inverted", "C09", [(ESF, "data_df.results_weights / data_df.baseline_weights, nan=0, posinf=0, neginf=0", "data_df.baseline_weights / data_df.results_weights, nan=0, posinf=0, neginf=0")], "C09.R4")
+mut("c09-tf-nan-one", "C09", [(ESF, "data_df.results_weights / data_df.baseline_weights, nan=0, posinf=0, neginf=0", "data_df.results_weights / data_df.baseline_weights, nan=1, posinf=0, neginf=0")], "C09.R3")
+mut("c09-args-swapped", "C09", [(CL, "            turnout_factor_lower,\n            turnout_factor_upper,\n            unit_blocklist,\n            postal_code_blocklist,", "            turnout_factor_lower,\n            turnout_factor_upper,\n            postal_code_blocklist,\n            unit_blocklist,")], "C09.R5")
+mut("c09-default-upper", "C09", [(CL, 'model_parameters.get("turnout_factor_upper", 2.0)', 'model_parameters.get("turnout_factor_upper", 1.5)')], "C09.R5")
+mut("c09-default-outlier-off", "C09", [(CL, 'model_parameters.get("fit_margin_outlier_model", True)', 'model_parameters.get("fit_margin_outlier_model", False)')], "C09.R5")
+mut("c09-wrong-key", "C09", [(CL, 'outlier_z_threshold = model_parameters.get("outlier_z_threshold", 2.0)', 'outlier_z_threshold = model_parameters.get("z_threshold", 2.0)')], "C09.R5")
+mut("c09-join-inner", "C09", [(CDF, 'data = preprocessed_data.merge(current_data, how="left", on=["postal_code", "geographic_unit_fips"])', 'data = preprocessed_data.merge(current_data, how="inner", on=["postal_code", "geographic_unit_fips"])')], "C09.R6")
+mut("c09-join-outer", "C09", [(CDF, 'data = preprocessed_data.merge(current_data, how="left", on=["postal_code", "geographic_unit_fips"])', 'data = preprocessed_data.merge(current_data, how="outer", on=["postal_code", "geographic_unit_fips"])')], "C09.R6")
+mut("c09-drop-all", "C09", [(CDF, 'data = data.dropna(axis=0, how="any", subset=result_cols)', 'data = data.dropna(axis=0, how="all", subset=result_cols)')], "C09.R6")
+mut("c09-zero-keeps-pev", "C09", [(CDF, '            data.loc[indices_with_null_val, "percent_expected_vote"] = 0\n', '')], "C09.R6")
+mut("c09-zero-mask-after-fill", "C09", [(CDF, "            indices_with_null_val = data[result_cols].isna().any(axis=1)\n            data.update(data[result_cols].fillna(value=0))\n", "            data.update(data[result_cols].fillna(value=0))\n            indices_with_null_val = data[result_cols].isna().any(axis=1)\n")], "C09.R6")
+ben("c09-flipped-comparison", ["C09", "C01"], [(CDF, "reporting_units = self.data[self.data.percent_expected_vote >= percent_reporting_threshold]", "reporting_units = self.data[percent_reporting_threshold <= self.data.percent_expected_vote]")])
+ben("c09-not-ge", ["C09", "C01"], [(CDF, "nonreporting_units = self.data[self.data.percent_expected_vote < percent_reporting_threshold]", "nonreporting_units = self.data[~(self.data.percent_expected_vote >= percent_reporting_threshold)]")])
+ben("c09-weights-commuted", ["C09"], [(ESF, "data_df[generated_weights_column_name] = data_df[f\"{col_prefix}dem\"] + data_df[f\"{col_prefix}gop\"]", "data_df[generated_weights_column_name] = data_df[f\"{col_prefix}gop\"] + data_df[f\"{col_prefix}dem\"]")])
